@@ -5,7 +5,6 @@ use crate::{
     eng::{action_name, Engine, ACTIONS, F, R},
     fp,
     gen::{cfg_strategy, lattice, triple_strategy, Cfg, Triple, TripleSpec},
-    refimpl::{verify_residual, Grp, Proof},
     runner::{guarded, sub, CaseLog, PropertyDef, RunCtx, Sub, Tier, INCONCLUSIVE},
 };
 use proptest::prelude::*;
@@ -79,13 +78,6 @@ pub fn oracle<E: Engine>(_ctx: &RunCtx, spec: &TripleSpec, log: &mut CaseLog) ->
                 ts.clear();
             }
         }
-    }
-    // independent reference verifier on the same bytes
-    let pf = Proof::parse_layout(&bytes).map_err(|e| format!("reference parser refuses prover output: {:?}", e))?;
-    match verify_residual(&mut t.transcript(), &t.ref_stmt(), &pf) {
-        Ok(res) if res == <E::P as Grp>::zero() => {},
-        Ok(_) => return Err("reference verifier: relation does not hold for an honest library proof".into()),
-        Err(r) => return Err(format!("reference verifier refuses an honest library proof: {:?}", r)),
     }
     log.label(format!("engine={}", E::NAME));
     log.labels(t.classes());
@@ -199,8 +191,7 @@ pub fn def() -> PropertyDef {
         rule: "Cases = every point of the (bits, aggregation, capacity) lattice once (degree round-robin) plus random lattice points x all six degrees, \
                each with per-slot value class {0,1,2^b-1,2^(b-1),2^(b-1)-1,uniform,top-half}, promise class {None,0,v,v-1,v/3,uniform<=v}, blinding \
                component classes {uniform,0,1,-1}, transcript context, prover RNG model {ChaCha, all-zero, constant, period-8, counter} and seed \
-               class; on engines R (Ristretto) and F (free module). Oracle: prove Ok, verify Ok in all three modes, independent reference \
-               verifier accepts the bytes, F residual is zero; the proof is also accepted in a 2-batch next to an honest proof of another aggregation size (both orders). Second generator: all-honest batches of 2-700 members (sizes around 256 and 512 stratified) drawn from a pool of 2-5 honest members with mixed aggregation sizes must be accepted with exactly k results. Non-trivial = the tuple (bits,m,cap,degree,value class,promise class,seed?,rng model) \
+               class; on engines R (Ristretto) and F (free module). Oracle: prove Ok, verify Ok in all three modes (that an INDEPENDENT verifier accepts the same bytes is decided by C02 and C19, not here); the proof is also accepted in a 2-batch next to an honest proof of another aggregation size (both orders). Second generator: all-honest batches of 2-700 members (sizes around 256 and 512 stratified) drawn from a pool of 2-5 honest members with mixed aggregation sizes must be accepted with exactly k results. Non-trivial = the tuple (bits,m,cap,degree,value class,promise class,seed?,rng model) \
                is outside the repository suite's 16 tuples-with-healthy-RNG; distinct by that tuple."
             .into(),
         assumptions: vec![
